@@ -104,7 +104,8 @@ class World:
         self.after_end = []           # observations made after the caller's task finished
         self.topo = []
         self.classes, self.source = progen.build_classes(spec, self)
-        self.dag = build_dag(input_node=self.classes[spec['input']], output_node=self.classes[spec['output']])
+        with progen.det_uuids(spec):
+            self.dag = build_dag(input_node=self.classes[spec['input']], output_node=self.classes[spec['output']])
         self.graph, self.index_of = progen.dump_graph(self.dag, spec)
         progen.WORLD_INDEX['index_of'] = {**(progen.WORLD_INDEX.get('index_of') or {}), **self.index_of}
         self.loop = StepLoop()
